@@ -23,7 +23,7 @@ for pid in ids:
         "evidence_file": "/verif/evidence/%s.json" % pid,
         "replay_cmd_template": "./check %s --replay {path}" % pid,
         "engine": ",".join(e["name"] for e in S["engines"]),
-        "level_claimed": {"category": "proof", "text": S.get("level_text", ""), "design_ref": "DESIGN.md §5 " + pid},
+        "level_claimed": {"category": "proof", "text": S.get("level_text", "%d theorems, unbounded (no bound on sizes, steps or histories), checked by Lean's kernel and audited for axioms; the model they are about is executed against the real packages by %d engine(s) (%d of them borrowed from neighbouring properties for named predicates) on every run" % (len(S["theorems"]), len(S["engines"]), len([e for e in S["engines"] if e.get("only")]))), "design_ref": "DESIGN.md §5 " + pid},
         "level_note": S.get("level_note", "Lean kernel + propext/Classical.choice/Quot.sound; the model is tied to /repo by the correspondence check (harness + amdrv), whose reach is bounded by its generators"),
         "technique": S.get("technique", "Lean 4 theorems over a hand-written executable model + differential correspondence check against the real Go packages"),
     })
